@@ -129,21 +129,38 @@ norm_ptr(uint64_t v, const uint8_t *base, size_t size, const karena *ar)
 }
 
 /*
- * Areas the kernels use as scratch and fill from registers holding whatever the caller left there
- * (observed: address fragments).  They are written before they are read; their content after a
- * history is not a function of the history.  Compared strictly right after init, reported
- * separately after a follow-up history.
+ * Data-plane areas of the out-of-order managers: kernel arguments (args.*), key stream / state /
+ * block scratch.  Kernels store whole vector registers there, including lanes and registers they
+ * never loaded — observed content: fragments of the CALLER's registers (addresses, even ASCII text
+ * left by printf in the harness).  Such bytes are written before they are read and are not a
+ * function of the job history, so after a follow-up history only the scheduler bookkeeping (lens,
+ * unused_lanes, job_in_lane, counters, per-lane block bookkeeping) and IMB_MGR are compared
+ * strictly; data-plane differences are counted and reported.  Right after init everything is
+ * compared strictly.
  */
 static int
 is_scratch(const char *stype, const char *leaf)
 {
-        return stype != NULL && !strcmp(stype, "MB_MGR_SNOW3G_OOO") && !strncmp(leaf, "ks[", 3);
+        static const char *const data_plane[] = { "args.", "ks[", "state[", "scratch[", "init_blocks[", "crc_init[",
+                                                  "bits_fixup[", NULL };
+        if (stype == NULL || !strcmp(stype, "IMB_MGR"))
+                return 0;
+        for (int i = 0; data_plane[i]; i++)
+                if (!strncmp(leaf, data_plane[i], strlen(data_plane[i])))
+                        return 1;
+        if (!strncmp(leaf, "ldata[", 6)) {
+                const char *dot = strchr(leaf, '.');
+                if (dot && (!strncmp(dot, ".extra_block[", 13) || !strncmp(dot, ".outer_block[", 13) ||
+                            !strncmp(dot, ".final_block[", 13)))
+                        return 1;
+        }
+        return 0;
 }
 
 static void
 cmp_report(struct cmp *c, const char *name, uint32_t off, uint64_t va, uint64_t vb, unsigned nbytes)
 {
-        if (c->lenient && is_scratch(c->stype, name)) {
+        if (c->used && c->lenient && is_scratch(c->stype, name)) {
                 c->diff_scratch += nbytes;
                 if (c->printed < 40) {
                         fprintf(c->out, "IMGDIFF region=%s leaf=%s off=%u a=%llx b=%llx scratch=1\n", c->region, name,
